@@ -565,6 +565,14 @@ func Evatra(l *WaterSharedVars, g *GlobalVarsMain, hPath *HFilePath, zeit int) {
 		// ! LUMDAY                = kumulative Dauer des Luftmangels (Tage), maximum 4
 		// ! LURED                 = Reduktionsfaktor fuer Transpiration
 		LUPOR := (g.PORGES[0] + g.PORGES[1] + g.PORGES[2] - g.WG[0][0] - g.WG[0][1] - g.WG[0][2]) / 3
+		if g.N < 3 {
+			// profiles with fewer than three layers: air filled pore space of the existing layers only
+			LUPOR = 0
+			for i := 0; i < g.N; i++ {
+				LUPOR = LUPOR + g.PORGES[i] - g.WG[0][i]
+			}
+			LUPOR = LUPOR / float64(g.N)
+		}
 		if LUPOR < g.LUKRIT[g.INTWICK.Index] {
 			g.LUMDAY = g.LUMDAY + g.DT.Index
 			if g.LUMDAY > 4 {
@@ -573,7 +581,10 @@ func Evatra(l *WaterSharedVars, g *GlobalVarsMain, hPath *HFilePath, zeit int) {
 			if LUPOR < 0 {
 				LUPOR = 0.
 			}
-			LURMAX := LUPOR / g.LUKRIT[g.INTWICK.Index]
+			LURMAX := 0.
+			if g.LUKRIT[g.INTWICK.Index] > 0 {
+				LURMAX = LUPOR / g.LUKRIT[g.INTWICK.Index]
+			}
 			g.LURED = 1 - float64(g.LUMDAY)/4*(1-LURMAX)
 		} else {
 			g.LUMDAY = 0
